@@ -163,6 +163,16 @@ def ill_conditioned(case):
     return abs(tot) <= 1e-7 * (scale + 1e-300)
 
 
+KEY_EP_EMPTY = "C12_ep_empty_subevent"
+
+
+def empty_subevent(case):
+    if case["est"] != "EP":
+        return False
+    return any(not any(s["eta"] >= case["gap"] for s in ev) or not any(s["eta"] < -case["gap"] for s in ev)
+               for ev in case["ref"])
+
+
 def degenerate(case):
     """event-plane inputs excluded by the theorem's hypothesis: a vector whose arctan2 is taken vanishes (empty
     sub-event, exact cancellation, or the self-correlation correction removing the whole reference vector)"""
@@ -234,6 +244,9 @@ def oracle(case):
     rot = call(case, mk_events(case["flow"], n, alphas), mk_events(case["ref"], n, alphas) if case["est"] != "RP" else None)
     v0, e0 = split(case, rotate_result(case, base, alphas[0] if alphas else 0.0))
     v1, e1 = split(case, rot)
+    if empty_subevent(case) and not (same(v0, v1) and (e0 is None or errs_same(e0, e1))):
+        return (f"EP {case['mode']}: an event has an empty sub-event (its sub-event plane angle is arctan2(0,0) = 0) and "
+                f"rotating the events changes the result: {base} -> {rot} [finding key {KEY_EP_EMPTY}]")
     if not degenerate(case) and not ill_conditioned(case) and not (same(v0, v1) and (e0 is None or errs_same(e0, e1))):
         return (f"{case['est']} {case['mode']}: rotating every event by an arbitrary angle changes the result: "
                 f"{base} -> {rot} (angles {alphas})")
@@ -430,6 +443,8 @@ def coq_case(case, got):
 
 
 def failure_class(case, msg):
+    if KEY_EP_EMPTY in msg:
+        return "EP empty sub-event"
     if "documented arguments" in msg:
         return "documented arguments rejected"
     if "reordering" in msg:
@@ -523,7 +538,8 @@ def correspondence(ctx, model_ok=True):
             return
         per_class[cl] = 1
         case = shrink(case, cl)
-        out["failures"].append(Failure(case, f"{cl}: {detail}", on_impl=oracle(case)))
+        out["failures"].append(Failure(case, f"{cl}: {detail}", on_impl=oracle(case),
+                                       key=KEY_EP_EMPTY if cl == "EP empty sub-event" else None))
 
     # documented-argument probes and metamorphic runs on the real code
     for pc in probe_cases():
